@@ -19,5 +19,9 @@ for r in res:
     lock[r["qualname"]] = {"source_hash": r["source_hash"], "obligations": len(r["obligations"]), "all_discharged": ok,
                            "limitation": r["limitation"]}
 json.dump(lock, open(os.path.join(V, "obligations.lock"), "w"), indent=1, sort_keys=True)
+for r in res:
+    for o in r["obligations"]:
+        if o["status"] != "discharged":
+            print("  not discharged:", o["name"][-140:], "|", o["status"], o["backend"][:80], round(o["time_s"], 1))
 bad = [q for q, v in lock.items() if not v["all_discharged"]]
 print(len(lock), "functions locked;", len(bad), "not fully discharged:", bad)
